@@ -925,3 +925,98 @@ def own_meta_edges(repo, tier="quick"):
         obs.append(ob_ok(oid, res, construct="no method reachable from resolve() writes an edge of self.meta_graph", instance="resolve",
                          reason="the bonds of the previous level stay as they were handed out"))
     return obs
+
+
+# ---------------------------------------------------------------------------------------------------------------------
+# Round 9
+# ---------------------------------------------------------------------------------------------------------------------
+
+def prov_fragment_text(repo, tier="quick"):
+    """fragment_iter splits a definition into its clean text and the descriptors / marks / annotations taken out of it.  The
+    fragment readers have to be handed the *clean* text: the raw definition still contains the descriptor tokens, and for a
+    coarse fragment `read_cgsmiles` skips them silently, except that an order symbol written for a descriptor becomes a bond
+    order and a descriptor at the end of a branch hides the closing brace."""
+    from .common import is_call
+    oid = "PROV.fragment-text"
+    fi = repo.function("read_fragments:fragment_iter")
+    fl = fi.flow
+    obs = []
+    strips = fl.calls_to("read_fragments:strip_bonding_descriptors")
+    need(strips, "anchor vanished: fragment_iter no longer calls strip_bonding_descriptors", fi)
+    readers = []
+    for fq in ("pysmiles_utils:read_fragment_smiles", "cgsmiles_utils:read_fragment_cgsmiles"):
+        for call, nid, _ in fl.calls_to(fq):
+            readers.append((fq, call, nid))
+    need(len(readers) >= 2, "anchor vanished: fragment_iter no longer calls both fragment readers", fi)
+    for fq, call, nid in readers:
+        a0 = call.args[0] if call.args else next((k.value for k in call.keywords if k.arg in ("smiles_str", "cgsmiles_str")), None)
+        t = fl.canon(a0, nid) if a0 is not None else None
+        ok = False
+        if t is not None:
+            cands = [t]
+            if t[0] == "var" and len(t) == 3:
+                cands = [fl.canon(d.value, d.node) for d in [fl.defs[i] for i in t[2]] if d.kind == "assign" and d.value is not None]
+                # tuple unpacking: the definition carries a path into the call's result
+                for d in [fl.defs[i] for i in t[2]]:
+                    if d.kind == "assign" and d.value is not None and d.path == (0,) and is_call(fl.canon(d.value, d.node), "strip_bonding_descriptors"):
+                        ok = True
+            for c in cands:
+                if c[0] == "sub" and c[2] == ("const", 0) and is_call(c[1], "strip_bonding_descriptors"):
+                    ok = True
+        name = fq.split(":")[1]
+        (obs.append(ob_ok(oid, fi, call, construct="%s(<clean text of strip_bonding_descriptors>, ...)" % name, instance=name, reason="the reader sees the text without descriptors")) if ok else
+         obs.append(ob_fail(oid, fi, call, construct="%s(%s, ...)" % (name, ast.unparse(a0) if a0 is not None else "?"), instance=name,
+                            reason="the reader is not handed the clean text returned by strip_bonding_descriptors: descriptor tokens (and the order symbols written for them) "
+                                   "are read as part of the fragment graph")))
+    return obs
+
+
+def key_parity_of_distance(repo, tier="quick"):
+    """The target distance of a node pair depends on whether the number of bonds between them is odd or even.  The test has to
+    be made on the hop count (the value of the shortest-path table), never on a node key: with the resolver's integer keys a
+    test on the key runs and merely bends the layout, with any other labelling (atom names, tuples) it raises."""
+    from .common import elem_of
+    oid = "KEY.K3-layout"
+    fi = repo.function("graph_layout:vespr_layout")
+    fl, cfg = fi.flow, fi.cfg
+    obs = []
+    for sub in ast.walk(fi.node):
+        if isinstance(sub, ast.BinOp) and isinstance(sub.op, ast.Mod) and isinstance(sub.right, ast.Constant) and sub.right.value == 2 and id(sub) in cfg.owner:
+            t = fl.canon(sub.left, cfg.owner[id(sub)])
+            e = elem_of(t)
+            if e and e[0] == "key":
+                obs.append(ob_fail(oid, fi, sub, construct="parity of a node key: %s" % ast.unparse(sub), instance="parity",
+                                   reason="odd / even is asked of the node label, not of the number of bonds: wrong target distances for integer labels, TypeError for any other"))
+            elif e and e[0] == "value":
+                obs.append(ob_ok(oid, fi, sub, construct="parity of the hop count: %s" % ast.unparse(sub), instance="parity", reason="odd / even number of bonds between the pair"))
+            else:
+                obs.append(ob_undecided(oid, fi, sub, construct="parity test %s" % ast.unparse(sub), instance="parity", reason="the rule cannot tell what the operand is"))
+    if not obs:
+        # the formula moved into a helper: the parity is asked of the helper's parameter, the question moves to its call sites
+        for call, nid in fl.calls():
+            t = repo.resolve_call(fi, call)
+            if t is None or t.kind != "repo" or t.fi is None:
+                continue
+            hp = t.fi.positional_params
+            tested = set()
+            for sub in ast.walk(t.fi.node):
+                if isinstance(sub, ast.BinOp) and isinstance(sub.op, ast.Mod) and isinstance(sub.right, ast.Constant) and sub.right.value == 2 and \
+                        isinstance(sub.left, ast.Name) and sub.left.id in hp:
+                    tested.add(sub.left.id)
+            for pname in tested:
+                pos = hp.index(pname)
+                a = call.args[pos] if pos < len(call.args) else next((k.value for k in call.keywords if k.arg == pname), None)
+                if a is None:
+                    continue
+                e = elem_of(fl.canon(a, nid))
+                if e and e[0] == "key":
+                    obs.append(ob_fail(oid, fi, call, construct="parity of a node key: %s(%s)" % (t.fi.name, ast.unparse(a)), instance="parity",
+                                       reason="odd / even is asked of the node label, not of the number of bonds"))
+                elif e and e[0] == "value":
+                    obs.append(ob_ok(oid, fi, call, construct="parity of the hop count: %s(%s)" % (t.fi.name, ast.unparse(a)), instance="parity",
+                                     reason="odd / even number of bonds between the pair"))
+                else:
+                    obs.append(ob_undecided(oid, fi, call, construct="%s(%s)" % (t.fi.name, ast.unparse(a)), instance="parity", reason="the rule cannot tell what the argument is"))
+    # no odd / even test in vespr_layout or in a helper it calls directly (a table of distances, a closed formula): nothing to
+    # ask; the other KEY.K3 obligations carry the floor of this family
+    return obs
